@@ -27,11 +27,16 @@ def scopeSrc (ρ : List (String × Lit)) : String :=
 
 def denScope (ρ : List (String × Lit)) : Env := (ρ.map (fun b => (b.1, b.2.den))).reverse
 
-def letSrc (ρ : List (String × Lit)) (p : Pat) (v : Lit) : String :=
-  scopeSrc ρ ++ "let " ++ p.src ++ " = " ++ v.src ++ "; " ++ namesTupleSrc (bodyNames p)
+/-- the enclosing scope: a chain of `let`s, or (fnScope) a chain of function parameters -/
+def scopeWrap (fnScope : Bool) (ρ : List (String × Lit)) (body : String) : String :=
+  if fnScope then ρ.foldr (fun b acc => "(\\" ++ b.1 ++ " " ++ acc ++ ")(" ++ b.2.src ++ ")") body
+  else scopeSrc ρ ++ body
 
-def fnSrc (ρ : List (String × Lit)) (p : Pat) (v : Lit) : String :=
-  scopeSrc ρ ++ "(\\" ++ p.src ++ " " ++ namesTupleSrc (bodyNames p) ++ ")(" ++ v.src ++ ")"
+def letSrc (fnScope : Bool) (ρ : List (String × Lit)) (p : Pat) (v : Lit) : String :=
+  scopeWrap fnScope ρ ("let " ++ p.src ++ " = " ++ v.src ++ "; " ++ namesTupleSrc (bodyNames p))
+
+def fnSrc (fnScope : Bool) (ρ : List (String × Lit)) (p : Pat) (v : Lit) : String :=
+  scopeWrap fnScope ρ ("(\\" ++ p.src ++ " " ++ namesTupleSrc (bodyNames p) ++ ")(" ++ v.src ++ ")")
 
 def armSrc (i : Nat) (p : Pat) : String :=
   p.src ++ ": (k: " ++ toString i ++ ", b: " ++ namesTupleSrc (bodyNames p) ++ ")"
@@ -40,8 +45,8 @@ def armsSrc : List Pat → Nat → List String
   | [], _ => []
   | p :: r, i => armSrc i p :: armsSrc r (i + 1)
 
-def condSrc (ρ : List (String × Lit)) (arms : List Pat) (v : Lit) : String :=
-  scopeSrc ρ ++ "cond (" ++ v.src ++ ") {" ++ ", ".intercalate (armsSrc arms 0) ++ "}"
+def condSrc (fnScope : Bool) (ρ : List (String × Lit)) (arms : List Pat) (v : Lit) : String :=
+  scopeWrap fnScope ρ ("cond (" ++ v.src ++ ") {" ++ ", ".intercalate (armsSrc arms 0) ++ "}")
 
 /-- the value of a cond: `(k: i, b: (names…))` of the chosen arm, `{}` when no arm is chosen -/
 def condVal (ρ : Env) (arms : List Pat) : Res (Option (Nat × Env)) → Res V
@@ -53,81 +58,19 @@ def condVal (ρ : Env) (arms : List Pat) : Res (Option (Nat × Env)) → Res V
   | .err => .err
   | .panic => .panic
 
-/-! ## the class of KF-nested-emptyset-equal: cases whose specified outcome changes when the empty-set members of
-set literals are ignored (rel's `Equal` confuses `{{1, {}}}` with `{{1}}`: a C01/C02 defect that shows through
-`ExprPattern.Bind`'s `v.Equal(value)`) -/
-
-mutual
-def noEmpty : Lit → Lit
-  | .arr off xs => .arr off (noEmptyOpts xs)
-  | .dict kvs => .dict (noEmptyPairs kvs)
-  | .set xs => .set (noEmptyMembers xs)
-  | .tup kvs => .tup (noEmptyAttrs kvs)
-  | .rel names rows => .rel names (noEmptyRows rows)
-  | l => l
-def noEmptyOpts : List (Option Lit) → List (Option Lit)
-  | [] => []
-  | some x :: r => some (noEmpty x) :: noEmptyOpts r
-  | none :: r => none :: noEmptyOpts r
-def noEmptyPairs : List (Lit × Lit) → List (Lit × Lit)
-  | [] => []
-  | (k, v) :: r => (noEmpty k, noEmpty v) :: noEmptyPairs r
-/-- members of a set literal: those denoting `{}` are dropped -/
-def noEmptyMembers : List Lit → List Lit
-  | [] => []
-  | x :: r => if decide (x.den = V.none) then noEmptyMembers r else noEmpty x :: noEmptyMembers r
-def noEmptyAttrs : List (String × Lit) → List (String × Lit)
-  | [] => []
-  | (n, v) :: r => (n, noEmpty v) :: noEmptyAttrs r
-def noEmptyRows : List (List Lit) → List (List Lit)
-  | [] => []
-  | row :: r => noEmptyRow row :: noEmptyRows r
-def noEmptyRow : List Lit → List Lit
-  | [] => []
-  | x :: r => noEmpty x :: noEmptyRow r
-end
-
-def noEmptyExpr : PExpr → PExpr
-  | .lit l => .lit (noEmpty l)
-  | e => e
-
-mutual
-def noEmptyPat : Pat → Pat
-  | .lit l => .lit (noEmpty l)
-  | .exprs es => .exprs (es.map noEmptyExpr)
-  | .arr items => .arr (noEmptyItems items)
-  | .tup attrs => .tup (noEmptyPAttrs attrs)
-  | .dict ents => .dict (noEmptyEnts ents)
-  | .set elts => .set (noEmptyElts elts)
-  | p => p
-def noEmptyItems : List (Pat × Option Lit) → List (Pat × Option Lit)
-  | [] => []
-  | (p, fb) :: r => (noEmptyPat p, fb.map noEmpty) :: noEmptyItems r
-def noEmptyPAttrs : List (String × Pat × Option Lit) → List (String × Pat × Option Lit)
-  | [] => []
-  | (n, p, fb) :: r => (n, noEmptyPat p, fb.map noEmpty) :: noEmptyPAttrs r
-def noEmptyEnts : List (Lit × Pat × Option Lit) → List (Lit × Pat × Option Lit)
-  | [] => []
-  | (k, p, fb) :: r => (noEmpty k, noEmptyPat p, fb.map noEmpty) :: noEmptyEnts r
-def noEmptyElts : List Pat → List Pat
-  | [] => []
-  | p :: r => noEmptyPat p :: noEmptyElts r
-end
-
-def noEmptyScope (ρ : List (String × Lit)) : List (String × Lit) := ρ.map (fun b => (b.1, noEmpty b.2))
-
 /-! ## expected observables and classes -/
 
-/-- a pattern that does not compile at all (duplicate tuple fields): every program with it is an error -/
+/-- a pattern that does not compile at all (duplicate tuple fields, duplicated set-pattern items): every program with
+it is an error -/
 def modelLet (ρ : Env) (p : Pat) (v : V) : Res V :=
-  if badTuple p then .err else if hasSetDup p then .panic else Impl.evalLet ρ p v
+  if badTuple p || hasSetDup p then .err else Impl.evalLet ρ p v
 def specLet (ρ : Env) (p : Pat) (v : V) : Res V :=
-  if badTuple p || !det p then .err else Res.ofOption (Spec.evalLet ρ p v)
+  if badTuple p || hasSetDup p || !det p then .err else Res.ofOption (Spec.evalLet ρ p v)
 def modelCond (ρ : Env) (arms : List Pat) (v : V) : Res V :=
-  if arms.any badTuple then .err else if arms.any hasSetDup then .panic
+  if arms.any badTuple || arms.any hasSetDup then .err
   else condVal ρ arms (Impl.evalCond ρ v arms 0)
 def specCond (ρ : Env) (arms : List Pat) (v : V) : Res V :=
-  if arms.any badTuple then .err else condVal ρ arms (Spec.evalCond ρ v arms 0)
+  if arms.any badTuple || arms.any hasSetDup then .err else condVal ρ arms (Spec.evalCond ρ v arms 0)
 
 /-- the known finding that explains a difference between the code's model and the specification -/
 def classify (ps : List Pat) (isCond : Bool) (m s : String) : String :=
@@ -145,27 +88,20 @@ def topKind : Pat → String
 def outcomeKind (s : String) : String :=
   if s == "error" then "nomatch" else if s == "{}" then "none" else "match"
 
-/-- does the outcome (match / no match) depend on empty-set members of set literals? -/
-def emptySensitive (ρ : List (String × Lit)) (ps : List Pat) (v : Lit) : Bool :=
-  ps.any (fun p =>
-    (Spec.bind (denScope ρ) p v.den).isSome != (Spec.bind (denScope (noEmptyScope ρ)) (noEmptyPat p) (noEmpty v).den).isSome)
-
-def classify' (ρ : List (String × Lit)) (ps : List Pat) (v : Lit) (isCond : Bool) (m s : String) : String :=
-  let c := classify ps isCond m s
-  if c == "good" && m == s && emptySensitive ρ ps v then "KF-nested-emptyset-equal" else c
-
-def mkLet (id : String) (fn : Bool) (ρ : List (String × Lit)) (p : Pat) (v : Lit) (tag : String := "") : Case :=
+def mkLet (id : String) (fn : Bool) (ρ : List (String × Lit)) (p : Pat) (v : Lit) (tag : String := "")
+    (fnScope : Bool := false) : Case :=
   let m := renderV (modelLet (denScope ρ) p v.den)
   let s := renderV (specLet (denScope ρ) p v.den)
-  { id := id, cls := classify' ρ [p] v false m s, kind := "eval",
+  { id := id, cls := classify [p] false m s, kind := "eval",
     stratum := (if fn then "fn/" else "let/") ++ topKind p ++ "/" ++ outcomeKind s ++ tag,
-    model := m, spec := s, payload := [if fn then fnSrc ρ p v else letSrc ρ p v] }
+    model := m, spec := s, payload := [if fn then fnSrc fnScope ρ p v else letSrc fnScope ρ p v] }
 
-def mkCond (id : String) (ρ : List (String × Lit)) (arms : List Pat) (v : Lit) (tag : String := "") : Case :=
+def mkCond (id : String) (ρ : List (String × Lit)) (arms : List Pat) (v : Lit) (tag : String := "")
+    (fnScope : Bool := false) : Case :=
   let m := renderV (modelCond (denScope ρ) arms v.den)
   let s := renderV (specCond (denScope ρ) arms v.den)
-  { id := id, cls := classify' ρ arms v true m s, kind := "eval",
-    stratum := "cond/" ++ outcomeKind s ++ tag, model := m, spec := s, payload := [condSrc ρ arms v] }
+  { id := id, cls := classify arms true m s, kind := "eval",
+    stratum := "cond/" ++ outcomeKind s ++ tag, model := m, spec := s, payload := [condSrc fnScope ρ arms v] }
 
 /-! ## patterns from values -/
 
@@ -191,6 +127,11 @@ structure St where
 
 def freshName (st : St) : Gen (String × St) := do
   let avail := namePool.filter (fun n => !st.used.contains n)
+  -- sometimes the pattern re-binds a name of the enclosing scope (a fallback mentioning it still sees the outer value)
+  let outer ← chance 1 12
+  if outer && !st.ρ.isEmpty then
+    let b ← pick st.ρ
+    return (b.1, { st with used := b.1 :: st.used })
   let reuse ← chance 1 7
   if (reuse && !st.used.isEmpty) || avail.isEmpty then
     let n ← pick (if st.used.isEmpty then namePool else st.used)
@@ -219,6 +160,65 @@ def leafPat (st : St) (l : Lit) : Gen (Pat × St) := do
     pure (.exprs (if first then [.lit l, .lit o] else [.lit o, .lit l]), st)
   else if r == 7 then pure (.exprs [.lit l], st)
   else pure (litPat l, st)
+
+/-- a `?:` fallback and the value it denotes in the enclosing scope (none: it cannot be evaluated):
+a literal (½), a name of the enclosing scope, or `name + k` -/
+def genFb (st : St) : Gen (FExpr × Option Lit) := do
+  let r ← rand 12
+  let nums := st.ρ.filter (fun b => match b.2 with | .num _ => true | _ => false)
+  if r < 6 || st.ρ.isEmpty then
+    let l ← genSmallLit
+    pure (.lit l, some l)
+  else if r < 9 then
+    let b ← pick st.ρ
+    pure (.var b.1, some b.2)
+  else if r < 11 && !nums.isEmpty then
+    let b ← pick nums
+    let k ← rand 3
+    match b.2 with
+    | .num n => pure (.add b.1 k, some (.num (n + k)))
+    | _ => pure (.var b.1, some b.2)
+  else if r == 11 then
+    -- a name that only the pattern itself binds (not in scope for a fallback), or bound to a non-number
+    let bad ← pick ["a", "x", "zz"]
+    pure (.var bad, (st.ρ.find? (fun b => b.1 == bad)).map (·.2))
+  else
+    let b ← pick st.ρ
+    pure (.add b.1 1, match b.2 with | .num n => some (.num (n + 1)) | _ => none)
+
+/-- the pattern of an absent component with fallback `e` (value `val`) -/
+def fbLeaf (st : St) (val : Option Lit) : Gen (Pat × St) :=
+  match val with
+  | some l => leafPat st l
+  | none => do
+    let (n, st) ← freshName st
+    pure (.name n, st)
+
+/-- an absent component whose pattern is itself a container with fallbacks that mention the enclosing scope:
+`?(b?: x:n1):()`, `?[?x:(n1 + 1)]:[]`, `?{1?: x:o1}:{}`, nested up to depth d -/
+def genNestedFb : Nat → St → Gen (Pat × FExpr × St)
+  | 0, st => do
+    let (e, val) ← genFb st
+    let (p, st) ← fbLeaf st val
+    pure (p, e, st)
+  | d + 1, st => do
+    let (inner, e, st) ← genNestedFb d st
+    let k ← rand 3
+    let withRest ← chance 1 4
+    match k with
+    | 0 =>
+      let attrs : List (String × Pat × Option FExpr) := [("b", inner, some e)] ++ (if withRest then [("", .rest "", none)] else [])
+      pure (.tup attrs, .lit (.tup []), st)
+    | 1 => pure (.arr [(inner, some e)], .lit (.arr 0 []), st)
+    | _ => pure (.dict [(.num 1, inner, some e)], .lit (.set []), st)
+
+/-- an optional component to append: a leaf with a fallback, or a nested one -/
+def genAbsent (d : Nat) (st : St) : Gen (Pat × FExpr × St) := do
+  let nested ← chance 1 3
+  if nested then
+    let depth ← rand (min d 2 + 1)
+    genNestedFb (depth + 1) st
+  else genNestedFb 0 st
 
 def restPat (st : St) : Gen (Pat × St) := do
   let anon ← chance 1 3
@@ -258,7 +258,7 @@ def abstract : Nat → St → Lit → Gen (Pat × St)
       -- an offset or holes are ignored here: such a value must not match
       let xs := presentOnly oxs
       let mut st := st
-      let mut items : List (Pat × Option Lit) := []
+      let mut items : List (Pat × Option FExpr) := []
       for x in xs do
         let (p, st') ← abstract d st x
         st := st'
@@ -273,25 +273,22 @@ def abstract : Nat → St → Lit → Gen (Pat × St)
         items := items.take i ++ [(rp, none)] ++ items.drop (i + k)
       else if t == 3 && !items.isEmpty then
         -- the last item gets a fallback (present: the fallback is not used)
-        let dflt ← genSmallLit
+        let (dflt, _) ← genFb st
         items := items.dropLast ++ (items.getLast?.map (fun q => (q.1, some dflt))).toList
       else if t == 4 then
         -- an additional, absent item with a fallback
-        let dflt ← genSmallLit
-        let (p, st') ← leafPat st dflt
+        let (p, dflt, st') ← genAbsent d st
         st := st'
         items := items ++ [(p, some dflt)]
       else if t == 5 then
         -- unsupported: two optional parts
-        let d1 ← genSmallLit
-        let d2 ← genSmallLit
-        let (p1, st') ← leafPat st d1
-        let (p2, st'') ← leafPat st' d2
+        let (p1, d1, st') ← genAbsent d st
+        let (p2, d2, st'') ← genAbsent d st'
         st := st''
         items := items ++ [(p1, some d1), (p2, some d2)]
       else if t == 6 then
         -- a fallback item in the middle / before ...rest
-        let dflt ← genSmallLit
+        let (dflt, _) ← genFb st
         let (rp, st') ← restPat st
         st := st'
         let front ← chance 1 2
@@ -300,7 +297,7 @@ def abstract : Nat → St → Lit → Gen (Pat × St)
       pure (.arr items, st)
     | .tup kvs => do
       let mut st := st
-      let mut attrs : List (String × Pat × Option Lit) := []
+      let mut attrs : List (String × Pat × Option FExpr) := []
       let mut dropped := false
       for kv in kvs do
         let drop ← chance 1 5
@@ -309,7 +306,7 @@ def abstract : Nat → St → Lit → Gen (Pat × St)
           let (p, st') ← abstract d st kv.2
           st := st'
           let opt ← chance 1 6
-          let dflt ← genSmallLit
+          let (dflt, _) ← genFb st
           attrs := attrs ++ [(kv.1, p, if opt then some dflt else none)]
       let t ← rand 10
       let withRest ← chance 3 4
@@ -320,8 +317,7 @@ def abstract : Nat → St → Lit → Gen (Pat × St)
         attrs := attrs.take i ++ [("", rp, none)] ++ attrs.drop i
       if t == 1 || t == 2 then
         -- an absent attribute with a fallback
-        let dflt ← genSmallLit
-        let (p, st') ← leafPat st dflt
+        let (p, dflt, st') ← genAbsent d st
         st := st'
         attrs := attrs ++ [("q", p, some dflt)]
       if t == 3 && attrs.length > 1 then attrs := attrs.drop 1 ++ attrs.take 1
@@ -330,7 +326,7 @@ def abstract : Nat → St → Lit → Gen (Pat × St)
     | .dict kvs => do
       if kvs.isEmpty || !(kvs.all (fun kv => keyOK kv.1)) then leafPat st l else
       let mut st := st
-      let mut ents : List (Lit × Pat × Option Lit) := []
+      let mut ents : List (Lit × Pat × Option FExpr) := []
       let mut dropped := false
       for kv in kvs do
         let drop ← chance 1 5
@@ -339,7 +335,7 @@ def abstract : Nat → St → Lit → Gen (Pat × St)
           let (p, st') ← abstract d st kv.2
           st := st'
           let opt ← chance 1 8
-          let dflt ← genSmallLit
+          let (dflt, _) ← genFb st
           ents := ents ++ [(kv.1, p, if opt then some dflt else none)]
       let t ← rand 10
       let withRest ← chance 3 4
@@ -349,8 +345,7 @@ def abstract : Nat → St → Lit → Gen (Pat × St)
         let i ← rand (ents.length + 1)
         ents := ents.take i ++ [(.ff, rp, none)] ++ ents.drop i
       if t == 1 then
-        let dflt ← genSmallLit
-        let (p, st') ← leafPat st dflt
+        let (p, dflt, st') ← genAbsent d st
         st := st'
         ents := ents ++ [(.num 9, p, some dflt)]
       if t == 2 && ents.length > 1 then ents := ents.drop 1 ++ ents.take 1
@@ -496,7 +491,7 @@ def mutPat (p : Pat) : Gen Pat := do
 
 def genScope (v : Lit) : Gen (List (String × Lit)) := do
   let r ← rand 6
-  if r < 3 then pure []
+  if r < 2 then pure []
   else
     let sub : Lit := match v with
       | .arr _ (some x :: _) => x
@@ -505,9 +500,12 @@ def genScope (v : Lit) : Gen (List (String × Lit)) := do
       | .dict ((_, x) :: _) => x
       | l => l
     let o ← genSmallLit
-    if r == 3 then pure [("o1", sub)]
-    else if r == 4 then pure [("o1", o), ("o2", sub)]
-    else pure [("o1", o)]
+    let k ← rand 4
+    let num : List (String × Lit) := [("n1", .num k)]
+    let withNum ← chance 2 3
+    let base : List (String × Lit) :=
+      if r == 3 then [("o1", sub)] else if r == 4 then [("o1", o), ("o2", sub)] else [("o1", o)]
+    pure (if withNum then num ++ base else base)
 
 def genOne (idx : Nat) (big : Bool) : Gen Case := do
   let depth := if big then 3 else 2
@@ -522,9 +520,10 @@ def genOne (idx : Nat) (big : Bool) : Gen Case := do
   let tag := if mode < 9 then "" else if mode < 15 then "/mutV" else if mode < 18 then "/mutP"
     else if mode == 18 then "/other" else "/scope"
   let form ← rand 20
+  let fnScope ← chance 1 4
   let id := s!"C09-{idx}"
-  if form < 10 then pure (mkLet id false ρ' p' v' tag)
-  else if form < 13 then pure (mkLet id true ρ' p' v' tag)
+  if form < 10 then pure (mkLet id false ρ' p' v' tag fnScope)
+  else if form < 13 then pure (mkLet id true ρ' p' v' tag fnScope)
   else
     -- cond: a pattern made from another value, the pattern under test, a default
     let w ← Lit.genLit depth
@@ -537,13 +536,13 @@ def genOne (idx : Nat) (big : Bool) : Gen Case := do
       | 2 => [q, p']
       | _ => [p', .name "z"]
     -- truly non-deterministic patterns have no specified cond outcome: keep them to `let`
-    if arms.all det then pure (mkCond id ρ' arms v' tag) else pure (mkLet id false ρ' p' v' tag)
+    if arms.all det then pure (mkCond id ρ' arms v' tag fnScope) else pure (mkLet id false ρ' p' v' tag fnScope)
 
 /-! ## corpus: witnesses of the repaired defects, of the known findings, and documentation examples -/
 
 def nl (k : Int) : Lit := .num k
 def la (xs : List Lit) : Lit := .arr 0 (xs.map some)
-def nm (x : String) : Pat × Option Lit := (.name x, none)
+def nm (x : String) : Pat × Option FExpr := (.name x, none)
 
 def corpus : List Case :=
   [ -- repaired: repeated names compared by printed form
@@ -556,12 +555,12 @@ def corpus : List Case :=
     mkCond "C09-corpus-5" [] [.arr [nm "a", nm "b"], .name "_"] (.arr 1 [some (nl 1), some (nl 2)]),
     -- repaired: the empty array / dict against optional parts
     mkLet "C09-corpus-6" false [] (.arr [(.rest "t", none)]) (la []),
-    mkLet "C09-corpus-7" false [] (.arr [(.name "x", some (nl 1))]) (la []),
-    mkLet "C09-corpus-8" false [] (.dict [(nl 2, .name "y", some (nl 5))]) (.set []),
+    mkLet "C09-corpus-7" false [] (.arr [(.name "x", some (.lit (nl 1)))]) (la []),
+    mkLet "C09-corpus-8" false [] (.dict [(nl 2, .name "y", some (.lit (nl 5)))]) (.set []),
     -- repaired: an optional item accepted longer arrays
-    mkLet "C09-corpus-9" false [] (.arr [nm "x", (.name "y", some (nl 5))]) (la [nl 1, nl 2, nl 3]),
-    mkLet "C09-corpus-10" false [] (.arr [nm "x", (.name "y", some (nl 5))]) (la [nl 1, nl 2]),
-    mkLet "C09-corpus-11" false [] (.arr [nm "x", (.name "y", some (nl 5))]) (la [nl 1]),
+    mkLet "C09-corpus-9" false [] (.arr [nm "x", (.name "y", some (.lit (nl 5)))]) (la [nl 1, nl 2, nl 3]),
+    mkLet "C09-corpus-10" false [] (.arr [nm "x", (.name "y", some (.lit (nl 5)))]) (la [nl 1, nl 2]),
+    mkLet "C09-corpus-11" false [] (.arr [nm "x", (.name "y", some (.lit (nl 5)))]) (la [nl 1]),
     -- repaired: ... in a dict pattern before other entries
     mkLet "C09-corpus-12" false [] (.dict [(.ff, .rest "t", none), (nl 1, .name "x", none)])
       (.dict [(nl 1, nl 2), (nl 3, nl 4)]),
@@ -570,14 +569,31 @@ def corpus : List Case :=
     mkLet "C09-corpus-14" false [] (.set [.exprs [.lit (nl 2)], .rest "t"]) (.set [nl 5]),
     mkLet "C09-corpus-15" false [] (.set [.exprs [.lit (.str 0 [97])], .name "y"]) (.set [.str 0 [97], nl 2]),
     -- known findings
-    mkLet "C09-corpus-16" false [] (.dict [(nl 2, .name "y", some (nl 5))]) (.dict [(nl 1, nl 1)]),
-    mkLet "C09-corpus-17" false [] (.arr [(.name "x", some (nl 4)), (.name "y", some (nl 5))]) (la [nl 1]),
+    mkLet "C09-corpus-16" false [] (.dict [(nl 2, .name "y", some (.lit (nl 5)))]) (.dict [(nl 1, nl 1)]),
+    mkLet "C09-corpus-17" false [] (.arr [(.name "x", some (.lit (nl 4))), (.name "y", some (.lit (nl 5)))]) (la [nl 1]),
     mkLet "C09-corpus-18" false [] (.set [.arr [nm "x"], .lit (nl 2)]) (.set [la [nl 1], nl 2]),
     mkCond "C09-corpus-19" [] [.exprs [.var "zz"], .name "_"] (nl 5),
-    mkCond "C09-corpus-20" [] [.arr [(.name "a", some (nl 1)), (.name "b", some (nl 2))], .name "_"] (la [nl 1]),
+    mkCond "C09-corpus-20" [] [.arr [(.name "a", some (.lit (nl 1))), (.name "b", some (.lit (nl 2)))], .name "_"] (la [nl 1]),
     mkLet "C09-corpus-28" false [] (.exprs [.lit (.set [.set [nl 1, .set []]])]) (.set [.set [nl 1]]),
     mkLet "C09-corpus-29" false [] (.arr [(.exprs [.lit (.set [.set [nl 1, .set []], nl 3])], none)])
       (la [.set [.set [nl 1], nl 3]]),
+    -- fallbacks are evaluated in the enclosing scope, also inside a component supplied by another fallback
+    mkLet "C09-corpus-30" false [("n", nl 3)]
+      (.tup [("a", .tup [("b", .name "x", some (.var "n"))], some (.lit (.tup [])))]) (.tup []),
+    mkCond "C09-corpus-31" [("n", nl 3)]
+      [.tup [("a", .tup [("b", .name "x", some (.var "n"))], some (.lit (.tup [])))], .name "_"] (.tup []),
+    mkLet "C09-corpus-32" true [("n", nl 3)]
+      (.arr [nm "y", (.arr [(.name "x", some (.add "n" 1))], some (.lit (la [])))]) (la [nl 7]) "" true,
+    mkLet "C09-corpus-33" false [("n", nl 3)]
+      (.dict [(nl 1, .dict [(nl 2, .name "x", some (.var "n"))], some (.lit (.set [])))]) (.set []),
+    mkLet "C09-corpus-34" false [("n", nl 3)]
+      (.tup [("a", .tup [("b", .tup [("c", .name "x", some (.add "n" 2))], some (.lit (.tup [])))], some (.lit (.tup [])))])
+      (.tup []),
+    mkLet "C09-corpus-35" false [("n", nl 3)] (.arr [nm "n", (.name "y", some (.var "n"))]) (la [nl 9]),
+    mkLet "C09-corpus-36" false [] (.arr [nm "a", (.name "y", some (.var "a"))]) (la [nl 9]),
+    mkCond "C09-corpus-37" [("n", nl 3)]
+      [.tup [("a", .lit (nl 4), some (.add "n" 1))], .tup [("a", .name "x", some (.var "n")), ("", .rest "t", none)]]
+      (.tup [("b", nl 1)]) "" true,
     -- documentation examples
     mkLet "C09-corpus-21" false [] (.arr [nm "x", (.rest "t", none), nm "y"]) (la [nl 1, nl 2, nl 3, nl 4, nl 5, nl 6]),
     mkLet "C09-corpus-22" false []
@@ -585,7 +601,7 @@ def corpus : List Case :=
       (.tup [("m", nl 1), ("n", nl 2), ("j", nl 3), ("k", nl 4)]),
     mkLet "C09-corpus-23" false [("x", nl 1), ("y", nl 42)]
       (.set [.exprs [.var "x"], .exprs [.var "y"], .rest "t"]) (.set [nl 1, nl 42, nl 5, nl 6]),
-    mkLet "C09-corpus-24" false [] (.tup [("a", .name "x", some (nl 1)), ("b", .lit (nl 2), none), ("", .rest "t", none)])
+    mkLet "C09-corpus-24" false [] (.tup [("a", .name "x", some (.lit (nl 1))), ("b", .lit (nl 2), none), ("", .rest "t", none)])
       (.tup [("b", nl 2)]),
     mkLet "C09-corpus-25" true [] (.tup [("a", .name "x", none), ("", .rest "t", none)])
       (.tup [("a", nl 1), ("b", nl 2)]),
@@ -617,14 +633,14 @@ def nodupBy {α} (key : α → String) (xs : List α) : Bool := (xs.map key).era
 
 /-- container patterns with ≤ k components over the given inner patterns -/
 def depth1 (inner : List Pat) (k : Nat) : List Pat :=
-  let items : List (Pat × Option Lit) :=
-    inner.map (fun p => (p, none)) ++ [(.rest "t", none), (.rest "", none), (.name "a", some (nl 1))]
-  let attrs : List (String × Pat × Option Lit) :=
+  let items : List (Pat × Option FExpr) :=
+    inner.map (fun p => (p, none)) ++ [(.rest "t", none), (.rest "", none), (.name "a", some (.lit (nl 1))), (.name "c", some (.add "n1" 1))]
+  let attrs : List (String × Pat × Option FExpr) :=
     (inner.take 2).flatMap (fun p => [("a", p, none), ("b", p, none)]) ++
-      [("a", .name "x", some (nl 1)), ("b", .name "y", some (nl 2)), ("", .rest "t", none)]
-  let ents : List (Lit × Pat × Option Lit) :=
+      [("a", .name "x", some (.lit (nl 1))), ("b", .name "y", some (.var "n1")), ("", .rest "t", none)]
+  let ents : List (Lit × Pat × Option FExpr) :=
     (inner.take 2).flatMap (fun p => [(nl 1, p, none), (nl 2, p, none)]) ++
-      [(nl 1, .name "x", some (nl 1)), (nl 2, .name "y", some (nl 2)), (.ff, .rest "t", none)]
+      [(nl 1, .name "x", some (.lit (nl 1))), (nl 2, .name "y", some (.lit (nl 2))), (.ff, .rest "t", none)]
   let elts : List Pat := inner ++ [.lit (nl 2), .rest "t", .rest ""]
   (upTo items k).map Pat.arr ++
   ((upTo attrs k).filter (fun as => nodupBy id (attrNames as))).map Pat.tup ++
@@ -659,7 +675,7 @@ def exhaustive : List Case := Id.run do
         | _, .set [] => true
         | _, _ => false
       if !same && i % 11 != 0 then continue
-      let c := if i % 7 == 3 && det p then mkCond s!"C09-x{i}" [] [p, .name "_"] v "/exh" else mkLet s!"C09-x{i}" false [] p v "/exh"
+      let c := if i % 7 == 3 && det p then mkCond s!"C09-x{i}" [("n1", nl 2)] [p, .name "_"] v "/exh" else mkLet s!"C09-x{i}" false [("n1", nl 2)] p v "/exh"
       out := c :: out
   pure out.reverse
 
